@@ -27,7 +27,9 @@ ASSUMPTIONS = [
     "executions of vf/fuzz/tle_target.py (reported as skipped, never as a violation, if atheris is not importable "
     "from /verif/.deps); exception-type leaks on malformed-but-checksum-valid lines are counted, not failed",
 ]
-LEVEL_TEXT = "exploration"
+LEVEL_TEXT = ("Generated-input search (Hypothesis) over the TLE field grid against an independent column "
+              "formatter/parser; per generated TLE every single-digit, length and line-number corruption is "
+              "enumerated; no absence claim beyond the inputs explored.")
 LEVEL_NOTE = ("Randomised exploration of the field grid with boundary mass per field; per generated TLE the "
               "single-digit, length and line-number corruptions are enumerated exhaustively.")
 TECHNIQUE = "property-based testing (Hypothesis) with an independent formatter/parser oracle; enumerated corruptions"
@@ -714,6 +716,11 @@ def _elnum_finding(facet, case, kind, msg, data):
         return kind in ("field:element_nb", "field:orbit.element_nb") and case["tle"]["elnum"] >= 1000
     if facet == "writer":
         return kind == "writer:parse-back-element_nb" and case["meta"]["elnum"] >= 1000
+    if facet == "fuzz" and kind in ("fuzz:read-element_nb", "fuzz:rewrite-elnum"):
+        from ..fuzz import tle_target
+
+        l1 = tle_target.decode(bytes(case["data"]))[1]
+        return len(l1) == 69 and l1[64] in "123456789"
     return False
 
 
